@@ -340,6 +340,29 @@ fn two_multi() {
     set_end(set, 3);
 }
 
+/// a multi-packet message with a small one queued BEHIND it on the same member before the wait: the member is
+/// announced once, so it must be drained past the reassembled message
+fn multi_then_small() {
+    setup(64);
+    env::set_block_is_violation(true);
+    let (s1, r1) = raw_pair();
+    let mut set = OsIpcReceiverSet::new().unwrap();
+    let id1 = set.add(rx_from_fd(r1)).unwrap();
+    let b: [u8; 25] = kani::any();
+    let c: u8 = kani::any();
+    let ded = raw_pair();
+    assert!(inject(s1, Some(25), &b[..24], &[ded.1]) > 0);
+    assert!(inject(ded.0, None, &b[24..], &[]) > 0);
+    raw_close(ded.0);
+    raw_close(ded.1);
+    assert!(inject(s1, Some(1), &[c], &[]) > 0);
+    let mut g = Got::new();
+    collect(&mut set, 2, &mut g);
+    assert!(g.nc == 0 && g.nd == 2 && g.d[0] == (id1, b[0], 25) && g.d[1] == (id1, c, 1), "C06: the message queued behind a multi-packet one is reported too, in send order");
+    raw_close(s1);
+    set_end(set, 2);
+}
+
 /// a member closes (nothing queued); afterwards the other member is still served under its own id
 fn closed_then_other() {
     setup(64);
@@ -522,6 +545,7 @@ harnesses! {
     #[unwind(14)] fn rxset_ipc() { ipc_set() }
     #[unwind(14)] fn rxset_id_after_close() { id_after_close() }
     #[unwind(14)] fn rxset_two_multi() { two_multi() }
+    #[unwind(14)] fn rxset_multi_then_small() { multi_then_small() }
     #[unwind(14)] fn rxset_closed_then_other() { closed_then_other() }
     #[unwind(14)] fn rxset_add_queued_two() { add_queued_two() }
     #[unwind(14)] fn rxset_one_member() { one_member(false) }
